@@ -311,6 +311,13 @@ class Suite:
         """Candidate smaller cases (default: none)."""
         return []
 
+    def py_property(self, case, out):
+        """Optional monitor of the property on the implementation's own output: returns a short tag when the
+        property is violated on this case, else None.  Used to classify a disagreement and to steer shrinking."""
+        return None
+
+    has_py_property = False
+
 
 def _key(obj) -> str:
     return hashlib.sha1(json.dumps(obj, sort_keys=True, default=str).encode()).hexdigest()
@@ -394,6 +401,8 @@ class Runner:
             pbterms = [terms[i] for i in bad]
             pbbad = coq_bad_indices(suite.imports, suite.case_type, suite.pb, pbterms)
             bad_prop = {bad[k] for k in pbbad}
+        elif suite.has_py_property:
+            bad_prop = {i for i in bad if suite.py_property(cases[i], outs[i])}
         # group by signature, so that a known finding does not hide a different failure
         by_sig: Dict[str, List[int]] = collections.OrderedDict()
         for i in bad:
@@ -417,6 +426,7 @@ class Runner:
                 fails = suite.deterministic
             case, out = cases[i], outs[i]
             case, out = self.shrink_case(suite, case, out, fails)
+            tag = suite.py_property(case, out) if suite.has_py_property else None
             model_out = None
             rin = suite.render_in(case)
             if suite.runf and rin:
@@ -430,16 +440,17 @@ class Runner:
                  "model_output": model_out, "disagreeing_cases_in_run": len(bad),
                  "coq_case": suite.render(case, out)},
                 found_input=fails,
-                what=(f"{suite.name}: implementation output violates the property on this input"
+                what=(f"{suite.name}: implementation output violates the property on this input" + (f": {tag}" if tag else "")
                       if fails else
                       f"{suite.name}: implementation and model disagree; property checker found no failing input"))
             reported += 1
 
     def shrink_case(self, suite: Suite, case, out, fails: bool):
         """Greedy shrinking: accept a candidate if it still disagrees (and still fails Pb if it did)."""
-        budget = 60
+        budget = 25
         improved = True
-        while improved and budget > 0:
+        t_end = time.time() + 60
+        while improved and budget > 0 and time.time() < t_end:
             improved = False
             cands = list(suite.shrink(case))[:40]
             if not cands:
@@ -463,6 +474,8 @@ class Runner:
                 bad = coq_bad_indices(suite.imports, suite.case_type, chk, cterms)
             except Exception:
                 break
+            if fails and suite.has_py_property and suite.pb is None:
+                bad = [k for k in bad if suite.py_property(ok_c[k], couts[k])]
             if bad:
                 case, out = ok_c[bad[0]], couts[bad[0]]
                 improved = True
